@@ -36,20 +36,20 @@ type TV struct {
 
 // Inst is one stage instance (one fork of one stage call).
 type Inst struct {
-	Node     string
-	Stage    *StageDef
-	Index    string // readable index path, e.g. "PL3[1]/ST2{k0}"
-	MapKey   string // key/index at the innermost enclosing mapped call ("" if none)
-	MapKind  byte
-	Args     map[string]interface{}
-	Deps     []*Inst
-	Group    *ForkGroup
-	Outs     map[string]interface{}
-	DoneSeq  int
-	Ambig    bool
-	Shared   bool
+	Node      string
+	Stage     *StageDef
+	Index     string // readable index path, e.g. "PL3[1]/ST2{k0}"
+	MapKey    string // key/index at the innermost enclosing mapped call ("" if none)
+	MapKind   byte
+	Args      map[string]interface{}
+	Deps      []*Inst
+	Group     *ForkGroup
+	Outs      map[string]interface{}
+	DoneSeq   int
+	Ambig     bool
+	Shared    bool
 	Preflight bool
-	Call     *CallDef
+	Call      *CallDef
 }
 
 // ForkGroup is all job processes of one fork directory of one node.
@@ -60,24 +60,24 @@ type ForkGroup struct {
 }
 
 type Eval struct {
-	P          *Prog
-	Groups     map[string][]*ForkGroup // by node
-	Insts      []*Inst
-	Problems   []Violation
-	Rejected   string // non-empty: the program is invalid at run time (not a violation)
-	Ambiguous  int
-	Incomplete bool // evaluation could not be completed (after a reported problem)
-	NDisabled  int
+	P           *Prog
+	Groups      map[string][]*ForkGroup // by node
+	Insts       []*Inst
+	Problems    []Violation
+	Rejected    string // non-empty: the program is invalid at run time (not a violation)
+	Ambiguous   int
+	Incomplete  bool // evaluation could not be completed (after a reported problem)
+	NDisabled   int
 	NStaticNull int
 	NNested     int
-	NMapped    int
-	NEmptyMap  int
-	NNarrow    int
-	NProj      int
-	NShared    int
+	NMapped     int
+	NEmptyMap   int
+	NNarrow     int
+	NProj       int
+	NShared     int
 	// node paths of pipeline calls that were mapped over an empty or null
 	// collection (or disabled): nothing below them should execute
-	EmptyMapped []string
+	EmptyMapped    []string
 	TolerantAbsent int
 }
 
@@ -314,13 +314,13 @@ func (e *Eval) convertPlain(v interface{}, t Ty) interface{} {
 // ---------------------------------------------------------------------------
 
 type scope struct {
-	pl    *PipelineDef
-	self  map[string]*TV
-	calls map[string]*TV
-	path  string // node path of the pipeline call
-	index string
-	mapKey string
-	mapKind byte
+	pl         *PipelineDef
+	self       map[string]*TV
+	calls      map[string]*TV
+	path       string // node path of the pipeline call
+	index      string
+	mapKey     string
+	mapKind    byte
 	preflights []*Inst
 	// what martian's compile-time resolution knows about the pipeline's inputs
 	senv map[string]sconst
